@@ -1,0 +1,12 @@
+//go:build verif
+
+package transid
+
+// Contracts for the verification framework in /verif (comment-only file,
+// compiled only with -tags verif; see /verif/DESIGN.md).
+
+//@ # ---------------------------------------------------------------- C14: transaction id
+//@ func Generate()
+//@   flag logged
+//@   let r0 = old(calls(rand.Read))
+//@   ensures [ten-hex-digits-of-fresh-randomness] calls(rand.Read) == r0 + 1 && len(arg(rand.Read, r0, 0)) == 5 && len(result) == 10
